@@ -107,7 +107,7 @@ func (f *Fam) genBegin(r *rand.Rand, s *Snapshot) string {
 				}
 			}
 			if len(live) == 0 {
-				return fmt.Sprintf("begin h=%d t=%d p=%s v=%s e=-", h, now, prop, v)
+				return fmt.Sprintf("begin t=%d p=%s v=%s e=-", now, prop, v)
 			}
 			a = live[r.Intn(len(live))]
 		}
@@ -119,7 +119,7 @@ func (f *Fam) genBegin(r *rand.Rand, s *Snapshot) string {
 		}
 		e = fmt.Sprintf("%s:%d:%d:%d", a, maxi(h-1-int64(r.Intn(3)), 1), now-age, pw)
 	}
-	return fmt.Sprintf("begin h=%d t=%d p=%s v=%s e=%s", h, now, prop, v, e)
+	return fmt.Sprintf("begin t=%d p=%s v=%s e=%s", now, prop, v, e)
 }
 
 func maxi(a, b int64) int64 {
